@@ -84,6 +84,17 @@ CHECKS = {
         "Trusts Hypothesis generation and the harness's reading of Folder.files/deleted_files; names are drawn from a "
         "pool of 3 folders x 3 files; one host.",
     ),
+    "C18": (
+        "PBT over topologies x link bandwidths x traffic patterns with an independent per-tick per-link accounting monitor",
+        "Generated LAN/two-switch/routed/wireless topologies with bandwidths from {default, huge, k x one frame} carry generated "
+        "traffic within a tick (pings whose reply is nested in the request's delivery, ARP floods, FTP transfers, DoS bursts, "
+        "database queries, NIC toggles); observe-only class-level wrappers account every frame that crosses each link / "
+        "wireless channel per tick independently of Link.current_load; after every delivery and at the end of every step "
+        "both the independent sum and the simulator's load must stay <= bandwidth, be 0 right after pre_timestep, "
+        "deliveries need both end interfaces enabled, and a frame refused for capacity reaches nobody. Exploration.",
+        "Frame sizes are deterministic because the harness owns uuid/clock/secrets; the wrappers are observe-only; "
+        "wireless_nic/wireless_access_point modules cannot be imported on this tree and are not wrapped.",
+    ),
 }
 
 NOT_BUILT_REASON = "check not built yet in this session (design in DESIGN.md); will be claimed when its check is registered"
